@@ -90,6 +90,13 @@ pub struct VammCfg {
     #[serde(with = "ustr")]
     pub oracle_price: U,
     pub twap_interval: Option<u64>,
+    /// false: the vAMM is instantiated without an insurance fund (the field is left to a later UpdateConfig)
+    #[serde(default = "yes")]
+    pub init_if: bool,
+}
+
+fn yes() -> bool {
+    true
 }
 
 #[derive(Serialize, Deserialize, Clone, Debug, PartialEq)]
